@@ -8,14 +8,33 @@ import (
 	"fmt"
 	"regexp"
 	"strings"
+	"unicode/utf8"
 )
 
 var vHeadRe = regexp.MustCompile(`^(:[^ \x00\r\n]+ )?([A-Za-z]+|[0-9]{3})( |$)`)
+
+// vDeliveredLen is the length of the line as a client receives it: messages are delivered JSON-encoded,
+// and the encoder replaces every byte that is not part of a valid UTF-8 sequence by U+FFFD (3 bytes).
+func vDeliveredLen(data string) int {
+	n := 0
+	for i := 0; i < len(data); {
+		r, size := utf8.DecodeRuneInString(data[i:])
+		if r == utf8.RuneError && size == 1 {
+			n += 3
+		} else {
+			n += size
+		}
+		i += size
+	}
+	return n
+}
 
 func vLineDefect(data string) string {
 	switch {
 	case len(data) > 510:
 		return "longer than 510 bytes"
+	case vDeliveredLen(data) > 510:
+		return "longer than 510 bytes as delivered (stray bytes become U+FFFD)"
 	case strings.IndexByte(data, '\n') >= 0:
 		return "contains LF"
 	case strings.IndexByte(data, '\r') >= 0:
